@@ -299,6 +299,9 @@ pub struct Shared {
     /// what the receiving application has seen: (link, label), in the order it saw it
     pub log: Vec<(u8, String)>,
     pub notes: Vec<String>,
+    /// if set, every accepted receiver link lowers its credit to Auto(n) right away (so that the listener
+    /// sends link flows of its own after every few deliveries)
+    pub small_credit: Option<u32>,
 }
 pub type Sh = Arc<Mutex<Shared>>;
 
@@ -314,6 +317,12 @@ fn link_no(name: &str) -> u8 {
 
 async fn receiver_main(mut r: Receiver, sh: Sh) {
     let link = link_no(r.name());
+    let small = sh.lock().unwrap().small_credit;
+    if let Some(n) = small {
+        if let Err(e) = r.set_credit(n).await {
+            sh.lock().unwrap().notes.push(format!("listener link {link}: set_credit({n}) failed: {e:?}"));
+        }
+    }
     loop {
         match r.recv::<String>().await {
             Ok(d) => {
